@@ -64,6 +64,9 @@ def run(ctx):
                 pred_ok = show(t).startswith('is_empty(used_data_segments(')
                 second_ok = pred_ok if second_ok is None else (second_ok and pred_ok)
             truth_table.append(('any_fn=%s' % second, emitted))
+            if second is None and emitted:
+                res.bad('datacount/condition', 'a DataCount section is emitted on a path where neither "some segment is passive" holds '
+                        'nor any function was asked whether it uses data segments (first=%s)' % first)
             if second is not None and emitted != second:
                 res.bad('datacount/condition', 'without passive segments the DataCount section must be emitted iff some function uses '
                         'memory.init/data.drop (emitted=%s, any=%s)' % (emitted, second))
@@ -74,8 +77,9 @@ def run(ctx):
                 'any other ingredient (memory index, offset, arena slot) makes MVP / multi-memory-only modules require bulk-memory')
     if second_ok:
         res.ok('datacount/function-uses', {'second_disjunct': 'any local function with non-empty used_data_segments()'})
-    elif second_ok is False:
-        res.bad('datacount/function-uses', 'the function-side condition is not `!used_data_segments().is_empty()`')
+    else:
+        res.bad('datacount/function-uses', 'the function-side condition is not `!used_data_segments().is_empty()`' if second_ok is False
+                else 'emit_data_count never asks the local functions whether they use data segments (memory.init / data.drop)')
     # (e2) re-check: element idx0 obligations exist in R-FLOW-SEG
     import r_segments
     sub = r_segments.run(ctx) if not hasattr(ctx, '_seg') else ctx._seg
